@@ -42,6 +42,7 @@ type Thread struct {
 	VC        VC
 	locks     int // number of sim mutexes currently held (leak detection)
 	LastKind  string
+	Note      string
 	prio      int
 }
 
@@ -499,6 +500,13 @@ func Sleep(d time.Duration) {
 	Yield("sleep")
 }
 
+// SetNote attaches a diagnostic note to the calling thread (what it is waiting for).
+func SetNote(n string) {
+	if t := Self(); t != nil {
+		t.Note = n
+	}
+}
+
 // LockHeld adjusts the count of sim mutexes held by the calling thread.
 func LockHeld(delta int) {
 	if t := Self(); t != nil {
@@ -731,7 +739,7 @@ func (s *Sim) Describe() string {
 	out := ""
 	for _, t := range s.threads {
 		if t.st != stDone {
-			out += fmt.Sprintf("[%d %s %s %s] ", t.ID, t.Name, t.State(), t.LastKind)
+			out += fmt.Sprintf("[%d %s %s %s %s] ", t.ID, t.Name, t.State(), t.LastKind, t.Note)
 		}
 	}
 	return out
